@@ -747,6 +747,205 @@ fn replay_queue(id: &str, case: &Value) -> Vec<Viol> {
 }
 
 // ---------------------------------------------------------------------------------------------
+// E4: TLA+ model checked by TLC, every model state replayed on the real queue (conformance)
+
+fn tla_field(label: &str, var: &str) -> Option<String> {
+    let key = format!("{var} = ");
+    let i = label.find(&key)?;
+    let rest = &label[i + key.len()..];
+    let end = rest.find("\\n").unwrap_or(rest.len());
+    Some(rest[..end].to_string())
+}
+fn tla_sets(s: &str) -> Vec<BTreeSet<usize>> {
+    let inner = s.trim().trim_start_matches("<<").trim_end_matches(">>");
+    let mut out = vec![];
+    let mut cur = String::new();
+    let mut depth = 0;
+    for c in inner.chars() {
+        match c {
+            '{' => {
+                depth += 1;
+                cur.clear();
+            }
+            '}' => {
+                depth -= 1;
+                out.push(cur.split(',').filter_map(|x| x.trim().parse().ok()).collect());
+            }
+            _ => {
+                if depth > 0 {
+                    cur.push(c);
+                }
+            }
+        }
+    }
+    out
+}
+fn tla_set(s: &str) -> BTreeSet<usize> {
+    s.trim().trim_start_matches('{').trim_end_matches('}').split(',').filter_map(|x| x.trim().parse().ok()).collect()
+}
+
+/// Run TLC on tla/DependencyQueue.tla (all invariants), dump the complete state graph and replay
+/// every state's history on the real DependencyQueue through the hook.
+fn tlc_conform(ctx: &mut Ctx, id: &str, frames: bool) {
+    if ctx.shard != 0 {
+        return;
+    }
+    ctx.outside_case();
+    let name = if frames { "frames" } else { "memory" };
+    let maxlen = if frames { ctx.tier.pick(8, 11) } else { ctx.tier.pick(6, 8) };
+    let dir = std::path::PathBuf::from(format!("{}/target/tla/{id}-{}", verif_dir(), ctx.tier.name()));
+    let _ = std::fs::remove_dir_all(&dir);
+    std::fs::create_dir_all(&dir).expect("tla dir");
+    let cfg = if frames {
+        format!("CONSTANTS\n  MaxLen = {maxlen}\n  Kinds = {{\"B\", \"U\"}}\n  WriteKinds = {{\"U\"}}\n  HasInitialWriter = TRUE\nSPECIFICATION Spec\nINVARIANTS TypeOK SequentiallyConsistent Justified Rooted PendingExact\nCHECK_DEADLOCK FALSE\n")
+    } else {
+        format!("CONSTANTS\n  MaxLen = {maxlen}\n  Kinds = {{\"R\", \"W\", \"C\"}}\n  WriteKinds = {{\"W\", \"C\"}}\n  HasInitialWriter = FALSE\nSPECIFICATION Spec\nINVARIANTS TypeOK SequentiallyConsistent Justified Rooted PendingExact\nCHECK_DEADLOCK FALSE\n")
+    };
+    std::fs::write(dir.join("DependencyQueue.cfg"), cfg).expect("cfg");
+    std::fs::copy(format!("{}/tla/DependencyQueue.tla", verif_dir()), dir.join("DependencyQueue.tla")).expect("copy spec");
+    let dot = dir.join("graph.dot");
+    use std::os::unix::process::CommandExt;
+    let mut cmd = std::process::Command::new("tlc");
+    // the worker's address-space limit is meant for the subject, not for the JVM
+    unsafe {
+        cmd.pre_exec(|| {
+            let lim = libc::rlimit { rlim_cur: libc::RLIM_INFINITY, rlim_max: libc::RLIM_INFINITY };
+            libc::setrlimit(libc::RLIMIT_AS, &lim);
+            Ok(())
+        });
+    }
+    let out = cmd
+        .current_dir(&dir)
+        .args(["-workers", "4", "-config", "DependencyQueue.cfg", "-dump", "dot,actionlabels", dot.to_str().unwrap(), "DependencyQueue.tla"])
+        .output()
+        .unwrap_or_else(|e| panic!("cannot run tlc: {e}"));
+    let text = String::from_utf8_lossy(&out.stdout).to_string();
+    if !text.contains("Model checking completed. No error has been found.") {
+        if text.contains("Invariant") && text.contains("is violated") {
+            let inv = text.lines().find(|l| l.contains("is violated")).unwrap_or("").to_string();
+            ctx.report(viol("tla-invariant-violated", format!("{id}:tla-invariant-violated:{name}"), json!({"tla": name, "max_len": maxlen}), format!("TLC: {inv}")));
+            return;
+        }
+        panic!("tlc did not complete: {}", text.lines().rev().take(6).collect::<Vec<_>>().join(" | "));
+    }
+    // final summary line: "<n> states generated, <m> distinct states found, 0 states left on queue."
+    let distinct: u64 = text
+        .lines()
+        .filter(|l| l.contains("distinct states found") && l.contains("states left on queue"))
+        .last()
+        .and_then(|l| l.split(" states generated, ").nth(1))
+        .and_then(|r| r.split(' ').next())
+        .and_then(|n| n.replace(',', "").parse().ok())
+        .unwrap_or(0);
+    let graph = std::fs::read_to_string(&dot).expect("dot dump");
+    let mut states = 0u64;
+    let mut edges = 0u64;
+    let mut bad: Vec<String> = vec![];
+    for line in graph.lines() {
+        if line.contains("->") {
+            edges += 1;
+            continue;
+        }
+        let Some(li) = line.find("[label=\"") else { continue };
+        let raw = &line[li + 8..];
+        let b = raw.as_bytes();
+        let mut end = raw.len();
+        let mut i = 0;
+        while i < b.len() {
+            if b[i] == b'\\' {
+                i += 2;
+                continue;
+            }
+            if b[i] == b'"' {
+                end = i;
+                break;
+            }
+            i += 1;
+        }
+        let label = &raw[..end];
+        let Some(h) = tla_field(label, "hist") else { continue };
+        let kinds: Vec<String> = h.trim().trim_start_matches("<<").trim_end_matches(">>").split(',').map(|x| x.trim().trim_matches(|c| c == '\\' || c == '"').to_string()).filter(|x| !x.is_empty()).collect();
+        let deps = tla_sets(&tla_field(label, "deps").unwrap_or_default());
+        let write = tla_set(&tla_field(label, "write").unwrap_or_default());
+        let reads = tla_set(&tla_field(label, "reads").unwrap_or_default());
+        if deps.len() != kinds.len() {
+            panic!("cannot parse TLC state label: {label}");
+        }
+        states += 1;
+        let acts: Vec<Vec<u8>> = kinds
+            .iter()
+            .map(|k| {
+                vec![match (frames, k.as_str()) {
+                    (true, "U") => 2u8,
+                    (true, _) => 1,
+                    (false, "R") => 1,
+                    (false, "W") => 2,
+                    (false, _) => 3,
+                }]
+            })
+            .collect();
+        let (got_deps, got_pend, kinds_ok) = match catch(|| drive(frames, 1, &acts)) {
+            Ok(x) => x,
+            Err(p) => {
+                bad.push(format!("hist {h}: real queue panicked: {p}"));
+                continue;
+            }
+        };
+        let mut ok = kinds_ok;
+        for (k, d) in deps.iter().enumerate() {
+            if got_deps[k][0] != *d {
+                ok = false;
+            }
+        }
+        let want_p: BTreeSet<usize> = write.union(&reads).cloned().collect();
+        if got_pend[0] != want_p {
+            ok = false;
+        }
+        if !ok && bad.len() < 5 {
+            bad.push(format!("model state hist={h} deps={:?} pending={want_p:?}; real queue deps={:?} pending={:?}", deps, got_deps.iter().map(|x| x[0].clone()).collect::<Vec<_>>(), got_pend[0]));
+        } else if !ok {
+            bad.push(String::new());
+        }
+    }
+    if states != distinct {
+        panic!("dot dump has {states} states but TLC reported {distinct}");
+    }
+    ctx.evals += states;
+    ctx.states += states;
+    ctx.transitions += edges;
+    ctx.traces += states;
+    ctx.outcome(&format!("tlc-{name}:states-replayed"));
+    *ctx.outcomes.get_mut(&format!("tlc-{name}:states-replayed")).unwrap() = states;
+    ctx.bound(&format!("tlc_{name}"), json!({"max_len": maxlen, "tlc_distinct_states": distinct, "tlc_edges": edges, "states_replayed_on_real_queue": states, "invariants": ["TypeOK", "SequentiallyConsistent", "Justified", "Rooted", "PendingExact"], "mismatches": bad.len()}));
+    ctx.sample(json!({"tlc_model": name, "example_state": "hist = <<\"W\", \"R\", \"R\", \"W\">> replayed on the real DependencyQueue"}));
+    if !bad.is_empty() {
+        ctx.report(viol("tla-conformance", format!("{id}:tla-conformance:{name}"), json!({"tla": name, "max_len": maxlen}), format!("{} of {states} TLC model states are not reproduced by the real DependencyQueue; first: {}", bad.len(), bad[0])));
+    }
+    let _ = std::fs::remove_dir_all(&dir);
+}
+
+fn replay_tla(id: &str, case: &Value) -> Vec<Viol> {
+    // re-run the conformance step in a throw-away context
+    let frames = case["tla"].as_str() == Some("frames");
+    let r = catch(|| {
+        let mut vs = vec![];
+        // drive every history up to max_len directly against the reference queue model (same content as the TLC graph)
+        let maxlen = case["max_len"].as_u64().unwrap_or(6) as usize;
+        let nk = if frames { 2 } else { 3 };
+        for len in 0..=maxlen.min(8) {
+            sequences(nk, len, |s| {
+                let acts: Vec<Vec<u8>> = s.iter().map(|k| vec![*k as u8 + 1]).collect();
+                if vs.is_empty() && !queue_check(frames, 1, &acts).is_empty() {
+                    vs.push(viol("tla-conformance", format!("{id}:tla-conformance:{}", if frames { "frames" } else { "memory" }), case.clone(), format!("history {acts:?} is not reproduced by the real queue")));
+                }
+            });
+        }
+        vs
+    });
+    r.unwrap_or_default()
+}
+
+// ---------------------------------------------------------------------------------------------
 // C25 calibrated part
 
 const CAL_HEAD: &str = "DEFFRAME 0 \"a\":\n    SAMPLE-RATE: 1.0\nDEFFRAME 1 \"a\":\n    SAMPLE-RATE: 1.0\nDEFFRAME 0 1 \"c\":\n    SAMPLE-RATE: 1.0\n";
@@ -916,7 +1115,7 @@ pub static C23: PropDef = PropDef {
     id: "C23",
     level: "model_checking",
     engine: "queue",
-    rule: "(A) every sequence of length <= L over a 19-instruction memory menu (regions a,b: every access shape, two captures into one region on disjoint non-blocking frames) and over the 27-instruction general menu, x 3 terminators, scheduled by the real code; (B) every access sequence (Read/Write/Capture) of length <= 8 (11 thorough) on one real DependencyQueue and every sequence of <= 4 (5) multi-queue actions on two queues, through the hook. non-trivial = program with >= 1 conflicting memory pair / queue sequence of length >= 2",
+    rule: "(A) every sequence of length <= L over a 19-instruction memory menu (regions a,b: every access shape, two captures into one region on disjoint non-blocking frames) and over the 27-instruction general menu, x 3 terminators, scheduled by the real code; (B) every access sequence (Read/Write/Capture) of length <= 8 (11 thorough) on one real DependencyQueue and every sequence of <= 4 (5) multi-queue actions on two queues, through the hook; (C) a TLA+ model of the queue (tla/DependencyQueue.tla) checked by TLC for TypeOK, SequentiallyConsistent, Justified, Rooted, PendingExact over all histories of length <= 6 (8), with EVERY state of TLC's dumped graph replayed on the real queue (conformance). non-trivial = program with >= 1 conflicting memory pair / queue sequence of length >= 2",
     assumptions: ASSUME,
     run: |ctx| {
         ctx.bound("menu_memory", json!(MENU_M));
@@ -925,8 +1124,9 @@ pub static C23: PropDef = PropDef {
         let lf = ctx.tier.pick(2, 4);
         program_sweep(ctx, "C23", Which::C23, "frames", MENU_F, lf);
         queue_sweep(ctx, "C23", false);
+        tlc_conform(ctx, "C23", false);
     },
-    replay: |c| if c.get("queue").is_some() { replay_queue("C23", c) } else { replay_program("C23", Which::C23, c) },
+    replay: |c| if c.get("tla").is_some() { replay_tla("C23", c) } else if c.get("queue").is_some() { replay_queue("C23", c) } else { replay_program("C23", Which::C23, c) },
     caps: (50, 5000),
 };
 
@@ -934,15 +1134,16 @@ pub static C24: PropDef = PropDef {
     id: "C24",
     level: "model_checking",
     engine: "queue",
-    rule: "(A) every sequence of length <= L over the 27-instruction general menu x 3 terminators on a 4-frame header (overlapping qubit sets; blocking and non-blocking pulses, captures, delays, fences, phase/frequency updates, reset), scheduled by the real code and compared with the reference frame rules; (B) every Blocking/Using sequence of length <= 8 (11) on one real frame DependencyQueue (implicit BlockStart writer) and <= 4 (5) actions on two queues, through the hook. non-trivial = program with >= 1 conflicting frame pair",
+    rule: "(A) every sequence of length <= L over the 27-instruction general menu x 3 terminators on a 4-frame header (overlapping qubit sets; blocking and non-blocking pulses, captures, delays, fences, phase/frequency updates, reset), scheduled by the real code and compared with the reference frame rules; (B) every Blocking/Using sequence of length <= 8 (11) on one real frame DependencyQueue (implicit BlockStart writer) and <= 4 (5) actions on two queues, through the hook; (C) the TLA+ queue model with the initial BlockStart writer checked by TLC over all histories of length <= 8 (11), every model state replayed on the real frame queue (conformance). non-trivial = program with >= 1 conflicting frame pair",
     assumptions: ASSUME,
     run: |ctx| {
         ctx.bound("menu", json!(MENU_F));
         let l = ctx.tier.pick(3, 5);
         program_sweep(ctx, "C24", Which::C24, "frames", MENU_F, l);
         queue_sweep(ctx, "C24", true);
+        tlc_conform(ctx, "C24", true);
     },
-    replay: |c| if c.get("queue").is_some() { replay_queue("C24", c) } else { replay_program("C24", Which::C24, c) },
+    replay: |c| if c.get("tla").is_some() { replay_tla("C24", c) } else if c.get("queue").is_some() { replay_queue("C24", c) } else { replay_program("C24", Which::C24, c) },
     caps: (50, 5000),
 };
 
